@@ -43,8 +43,8 @@ METHODS = ["get", "set", "delete", "get_many", "incr"]
 ITEM_FORMS = ["__getitem__", "__getitem__/miss", "__setitem__", "__delitem__"]
 
 
-class Inner:
-    """Scripted inner client."""
+class InnerBase:
+    """Scripted inner client (the methods live on a base class: wrapped clients are often subclasses)."""
 
     def __init__(self, outcomes, log):
         self.outcomes = list(outcomes)
@@ -85,6 +85,21 @@ class Inner:
 
     def incr(self, *a, **k):
         return self._do("incr", a, k)
+
+
+class Inner(InnerBase):
+    # the mapping protocol of the real clients
+    def __setitem__(self, key, value):
+        self.set(key, value, noreply=True)
+
+    def __getitem__(self, key):
+        v = self.get(key)
+        if v is None:
+            raise KeyError
+        return v
+
+    def __delitem__(self, key):
+        self.delete(key, noreply=True)
 
 
 def execute(RetryingClient, attempts, rf, dnr, outcomes, variant, form=None):
